@@ -10,6 +10,9 @@ import (
 // API-level request generation: small shared id pools, timeouts placed around the harness clock.
 
 var ApiPromiseIds = []string{"p0", "p1", "a:b", "b:c"}
+
+// subscription ids; "b:c" on promise "a" and (hostile) "c" on promise "a:b" both spell __notify:a:b:c
+var SubIds = []string{"n0", "n1", "b:c"}
 var CronExprs = []string{"* * * * * *", "*/2 * * * * *", "*/5 * * * * *", "bad cron"}
 var IdTemplates = []string{"{{.id}}.{{.timestamp}}", "fixed", "x-{{.timestamp}}"}
 var RouteTags = []string{"poll://g/i", "http://h/x", `{"type":"poll","data":{"group":"g","id":"i"}}`, "default", "true", "17", `{"a":1}`}
@@ -23,6 +26,7 @@ func Hostile() {
 	RouteTags = append(RouteTags, "null")
 	// ids whose derived callback ids collide: (root a, promise b:c) and (root a:b, promise c) both give __resume:a:b:c
 	ApiPromiseIds = append(ApiPromiseIds, "a", "c")
+	SubIds = append(SubIds, "c")
 }
 
 type ApiOpts struct {
@@ -161,7 +165,7 @@ func (g *G) Request(tid string, now int64, kinds []t_api.Kind, tasks []KnownTask
 		}
 		r.CreateCallback = &t_api.CreateCallbackRequest{PromiseId: p, RootPromiseId: root, Timeout: g.apiTimeout(now), Recv: g.recv()}
 	case t_api.CreateSubscription:
-		r.CreateSubscription = &t_api.CreateSubscriptionRequest{Id: g.pick([]string{"n0", "n1", "b:c"}), PromiseId: pid(), Timeout: g.apiTimeout(now), Recv: g.recv()}
+		r.CreateSubscription = &t_api.CreateSubscriptionRequest{Id: g.pick(SubIds), PromiseId: pid(), Timeout: g.apiTimeout(now), Recv: g.recv()}
 	case t_api.ReadSchedule:
 		r.ReadSchedule = &t_api.ReadScheduleRequest{Id: g.pick(SchedIds)}
 	case t_api.SearchSchedules:
